@@ -213,9 +213,24 @@ func (r *Run) execute() int {
 			}()
 		}
 	}
+	wg.Wait()
 	if r.survey {
-		wg.Wait()
 		return 0
+	}
+	// second chance: an obligation left `unknown` (a timeout, possibly a load artefact) is asked again on its own with
+	// twice the time before it is reported; `sat` answers are never retried
+	for _, u := range r.units {
+		for _, o := range u.Obls {
+			if o.Status == "unknown" && o.Batch == nil {
+				d2 := &Discharger{w: w, dir: dir, timeout: 2 * r.timeout, sem: make(chan struct{}, 24)}
+				clause := o.Clause
+				d2.discharge(o)
+				if o.Status == "discharged" {
+					o.Clause = clause
+					o.Solver += " (second attempt)"
+				}
+			}
+		}
 	}
 	// vacuity canaries: the hypotheses of the last obligation of every unit must be satisfiable
 	type canary struct {
